@@ -7,6 +7,14 @@ TIERS = {
         'thorough': dict(runs=400000, workers=16, batch_timeout=7200,
                          run_timeout=60, determinism=512, shrink_budget=120),
     },
+    'C18': {
+        'quick': dict(runs=1600, workers=16, batch_timeout=900,
+                      run_timeout=120, determinism=24, shrink_budget=90,
+                      shrink_timeout=400),
+        'thorough': dict(runs=60000, workers=16, batch_timeout=10800,
+                         run_timeout=120, determinism=128, shrink_budget=240,
+                         shrink_timeout=900),
+    },
 }
 
 COMMON_ASSUMPTIONS = [
@@ -47,6 +55,39 @@ META = {
             'with a user prior, fit_boundaries may be either the parameter '
             'bounds or the prior\'s own boundaries, but must be in the '
             'prior\'s space',
+        ],
+    },
+    'C18': {
+        'rule': 'one run = one simulated MPI job: R rank threads (baton-passed, '
+                'pre-emption at collectives, every exchange pickled per '
+                'receiver), each with its own real model/optimizer, running '
+                'generate_profiles and compute_derived_trace on a generated '
+                'posterior; non-trivial = R >= 2; distinct = distinct (R, '
+                'per-rank sample-count vector, N, arrival order of ranks at '
+                'every collective)',
+        'probes': ['rank_with_0_samples', 'rank_with_1_sample', 'tied_weights',
+                   'zero_weights', 'fewer_than_2_processed'],
+        'real': ['Optimizer.generate_profiles / sample_parameters / '
+                 'compute_derived_trace', 'SimpleForwardModel.compute_error',
+                 'OnlineVariance (update, parallelVariance, combine_variance)',
+                 'all taurex.mpi call sites', 'TransmissionModel/EmissionModel '
+                 'with Absorption/CIA/Rayleigh, TaurexChemistry, ConstantGas, '
+                 'Isothermal/Guillot, ArraySpectrum, FluxBinner',
+                 'quantile_corner'],
+        'stub': ['mpi4py -> SimWorld (sim/mpi_world.py)',
+                 'sampler -> Optimizer subclass returning the generated '
+                 'posterior from get_samples/get_weights',
+                 'opacity data -> in-memory InterpolatingOpacity/CIA tables'],
+        'assumptions': COMMON_ASSUMPTIONS + [
+            'mpi4py lower-case collectives pickle their arguments; allgather '
+            'returns rank order; object allreduce(SUM) folds with + in rank '
+            'order; Bcast of an ndarray is a copy',
+            'ranks share no memory: pre-emption only at collectives is '
+            'faithful',
+            'variances (not stds) are compared, tolerance 1e-9*(var+mean^2); '
+            'subsets whose weights are all < 1e-280 are compared for NaN '
+            'pattern only (sub-normal round-off)',
+            'posterior samples lie in the valid region of the model',
         ],
     },
 }
